@@ -6,5 +6,7 @@ MCAlphabet == <<"a">>
 ASSUME UniverseOK
 ASSUME PrintT(<<"STATS", ToJson([ncases |-> NCases, applicable |-> Cardinality(ApplicableIdx),
                                  samples |-> Cardinality(SampleTexts), kinds |-> NK, files |-> NF,
-                                 positions |-> NP, shapes |-> NS])>>)
+                                 positions |-> NP, shapes |-> NS, rels |-> NR, shape_names |-> Shapes,
+                                 ends_nl_shapes |-> EndsNLShapes, ml_string_shapes |-> MultiLineStringShapes,
+                                 from_kinds |-> FromKinds, dup_kinds |-> DupKinds])>>)
 =============================================================================
